@@ -543,5 +543,8 @@ def run(prog: Program, rep: Report, tier: str = "quick") -> None:
         for d in lst:
             rep.add(Instance(d["rule"], d["verdict"], d["module"], d["function"], d["construct"], d["line"], d.get("message", ""), d.get("detail", {})))
     n = len(roles)
+    from . import game
+
+    game.add_instances(rep, game.c07_job, [(i, tier) for i in range(n)], "R7.11", 28 * n)
     rep.floor("R7.5", n)
     rep.floor("R7.A", n - 1)
